@@ -181,19 +181,19 @@ fn owned_tlv(section: &[u8], rec: &mut Recorder) {
 }
 
 fn report_owned(what: &str, x: &[u8], kind: &str, r: Result<Option<(bool, bool)>, String>, rec: &mut Recorder) {
-    let case = enc_case(&format!("own-{}", kind), &x[..x.len().min(70_100)]);
+    let case = || enc_case(&format!("own-{}", kind), &x[..x.len().min(70_100)]);
     match r {
         Ok(None) => {}
         Ok(Some((eq_ok, same))) => {
             rec.class(&format!("owned-copy-checked|{}", what), || show(x, 60));
             if !eq_ok {
-                rec.violation(&format!("owned-not-equal:{}", what), case.clone(), what.to_string(), format!("to_owned() of the {} parsed from {:?} does not compare equal to / expose the same views as the original", what, show(x, 100)));
+                rec.violation(&format!("owned-not-equal:{}", what), case(), what.to_string(), format!("to_owned() of the {} parsed from {:?} does not compare equal to / expose the same views as the original", what, show(x, 100)));
             }
             if !same {
-                rec.violation(&format!("owned-changed-after-clobber:{}", what), case, what.to_string(), format!("the owned {} parsed from {:?} changed after the input buffer was overwritten and dropped", what, show(x, 100)));
+                rec.violation(&format!("owned-changed-after-clobber:{}", what), case(), what.to_string(), format!("the owned {} parsed from {:?} changed after the input buffer was overwritten and dropped", what, show(x, 100)));
             }
         }
-        Err(m) => rec.violation(&format!("panic-owned:{}", what), case, what.to_string(), m),
+        Err(m) => rec.violation(&format!("panic-owned:{}", what), case(), what.to_string(), m),
     }
 }
 
